@@ -52,7 +52,22 @@ SyncVerdict(c) ==
   ELSE IF ~FinalOk(c) THEN "not in sync (or not merged) within the bound of rounds"
   ELSE "ok"
 
-Verdict(c) == IF c.t = "digest" THEN DigestVerdict(c) ELSE SyncVerdict(c)
+(* the protocol objects (AntiEntropyManager): "X receives Y's digest" must report divergence exactly when the two *)
+(* states differ, name the buckets of the differing keys, and the round that follows only moves keys to the merge *)
+ExchOk(e) ==
+  LET a == e.before[1]
+      b == e.before[2]
+      d == DiffKeys(a, b) IN
+  IF e.insync # (d = {}) THEN (IF e.insync THEN "false in-sync: the manager reported in sync although the states differ (no sync is requested)"
+                               ELSE "false divergent: the manager reported divergence between equal states")
+  ELSE IF ~e.insync /\ Range(e.buckets) # BucketsOf(a, b, d) THEN "the manager's divergent buckets are not the buckets of the differing keys"
+  ELSE IF ~e.insync /\ "after" \in DOMAIN e /\ ~RoundOk(e.before, e.after) THEN "a manager-level sync round left a key that is neither unchanged nor the merge of both sides"
+  ELSE "ok"
+MgrVerdict(c) ==
+  IF "panic" \in DOMAIN c THEN "panic"
+  ELSE LET bad == {i \in DOMAIN c.steps : c.steps[i].s = "exchange" /\ ExchOk(c.steps[i]) # "ok"} IN
+       IF bad = {} THEN "ok" ELSE ExchOk(c.steps[CHOOSE i \in bad : \A j \in bad : i <= j])
+Verdict(c) == IF c.t = "digest" THEN DigestVerdict(c) ELSE IF c.t = "mgr" THEN MgrVerdict(c) ELSE SyncVerdict(c)
 TraceInit == l = 1
 TraceNext ==
   \/ /\ l <= Len(Rec)
